@@ -481,8 +481,10 @@ class ParserFunctions:
         import math
 
         if expression_list:
+            # expanding the argument happens here, outside the try block: the template
+            # recursion / memory limit it may hit is not an error of the expression
+            expression = expression_list[0].strip()
             try:
-                expression = expression_list[0].strip()
                 if not expression:
                     return ""
                 val = expr.expr(expression)
@@ -502,9 +504,9 @@ class ParserFunctions:
         return "0"
 
     def IFEXPR(self, expression_list):
+        expression = expression_list[0].strip()  # (argument expansion: see EXPR)
         try:
-            expression = expression_list[0].strip()
-            evaluation_result = expr.expr(expression_list[0]) if expression else False
+            evaluation_result = expr.expr(expression) if expression else False
         except Exception as err:
             return self._error(err)
 
